@@ -9,6 +9,8 @@ import progrun
 
 sys.path.insert(0, os.path.join(vlib.VERIF, "gen"))
 import progen  # noqa: E402
+import c09_scale  # noqa: E402
+import corpus  # noqa: E402
 
 META = {
     "title": "Garbage collection never changes what a program computes",
@@ -108,6 +110,69 @@ def run(chk, tier):
                            "got": r["out"][:2000], "err": r["err"][:500], "rc": r["rc"], "expected": e["out"][:2000]},
                           key={"kind": c[0], "sig": c[1], "route": "interp", "schedule": [k, j], "shapes": progcheck.shape_flags(p)})
     chk.traces += len(ijobs)
+    # large-scale programs through the Obs monitor (equality with the run without forced collection)
+    sd = os.path.join(wd, "scale")
+    os.makedirs(sd)
+    scale = c09_scale.family(chk.seed, tier)
+
+    def build_scale(item):
+        name, text = item
+        d = os.path.join(sd, name)
+        os.makedirs(d)
+        open(os.path.join(d, "p.as"), "w").write(text)
+        rc, out, err, to = vlib.aldor(b, ["-Fc", "-Fmain", "p.as"], d, timeout=300)
+        if rc != 0 or to:
+            raise vlib.MachineryError("scale program %s does not compile: %s" % (name, out.decode(errors="replace")[:500]))
+        rc, out, err, to = vlib.link_c(b, d, ["p.c", "p-aldormain.c"], "p")
+        if rc != 0 or to:
+            raise vlib.MachineryError("scale program %s does not link: %s" % (name, (out + err).decode(errors="replace")[:500]))
+        return d
+    with concurrent.futures.ThreadPoolExecutor(max_workers=vlib.NCPU) as ex:
+        dirs = list(ex.map(build_scale, scale))
+    sjobs = [(n, d, None) for (n, t), d in zip(scale, dirs)] + \
+            [(n, d, kj) for (n, t), d in zip(scale, dirs) for kj in c09_scale.SCHEDULES[tier]]
+
+    def run_scale(job):
+        name, d, kj = job
+        env = dict(os.environ)
+        env.pop("ALDOR_VERIF_GC", None)
+        if kj:
+            env["ALDOR_VERIF_GC"] = "%d:%d" % kj
+        rc, out, err, to = vlib.run(["./p"], cwd=d, timeout=600, env=env)
+        return rc, out.decode(errors="replace"), to
+    with concurrent.futures.ThreadPoolExecutor(max_workers=vlib.NCPU) as ex:
+        sres = list(ex.map(run_scale, sjobs))
+    events, sdetail = [], {}
+    for (name, d, kj), (rc, out, to) in zip(sjobs, sres):
+        cfg = "none" if kj is None else "k%d_j%d" % kj
+        if kj is None and (rc != 0 or to):
+            # the statement also says that no run ends in a storage fault: collections happen here too, when the heap fills
+            chk.violation("large-scale program %s fails with the collector running only when the heap fills (rc=%s timeout=%s)" % (name, rc, to),
+                          {"program": name, "rc": rc, "timeout": to, "out": out[:500], "source": dict(scale)[name]},
+                          key={"kind": "scale-fault", "program": name.rsplit("_", 1)[0], "schedule": "none"})
+            continue
+        o = "<timeout>" if to else out
+        events.append({"ev": "Observe", "input": name, "cfg": cfg, "digest": corpus.digest(o, rc == 0)})
+        sdetail[(name, cfg)] = (rc, o[:500])
+        chk.case(("scale", name, cfg))
+    trace = os.path.join(sd, "obs.ndjson")
+    vlib.write_ndjson(trace, events)
+    tr = vlib.tlc("TraceObs", "TraceObsAll", workers=1, env={"TRACE": trace}, timeout=600)
+    chk.add_tlc("TraceObs[scale]", tr)
+    if not any(isinstance(l, str) and l.startswith("SUMMARY") for l in tr.printed):
+        raise vlib.MachineryError("TraceObs did not reach the end of the scale trace")
+    for l in tr.printed:
+        if isinstance(l, str) and l.startswith("DISAGREE"):
+            parts = [p.strip().strip('"') for p in l[l.index("<<") + 2:l.rindex(">>")].split(",")]
+            n_, cfg, first = parts[1], parts[2], parts[3]
+            if (n_, first) not in sdetail:
+                continue
+            chk.violation("large-scale program %s: result under schedule %s differs from the run without forced collection" % (n_, cfg),
+                          {"program": n_, "schedule": cfg, "got": sdetail[(n_, cfg)], "reference": sdetail[(n_, first)],
+                           "source": dict(scale)[n_]},
+                          key={"kind": "scale-disagree", "program": n_.rsplit("_", 1)[0], "schedule": cfg})
+    chk.traces += len(sjobs)
+    chk.extra["scale_programs"] = [n for n, t in scale]
     chk.extra["schedules_c_route"] = len(scheds)
     chk.extra["schedules_interp_route"] = len(isched)
     chk.extra["programs_by_status"] = fam.status_count
